@@ -281,6 +281,7 @@ func (c *RetryClient) SetClient(ctx context.Context, cli *BaseClient) {
 		close(c.chConnSwitch)
 	}
 	c.chConnSwitch = make(chan struct{})
+	verifEvent("SetClient")
 	c.mu.Unlock()
 	c.muStats.Lock()
 	c.stats.CountSetClient++
@@ -308,6 +309,7 @@ func (c *RetryClient) SetClient(ctx context.Context, cli *BaseClient) {
 					case _, ok := <-chConnectErr:
 						if !ok {
 							connected = true
+							verifEvent("tgConnected")
 							continue L_TASK
 						}
 					case <-chConnSwitch:
@@ -341,6 +343,7 @@ func (c *RetryClient) SetClient(ctx context.Context, cli *BaseClient) {
 			cli := c.cli
 			task := c.taskQueue[0]
 			c.taskQueue = c.taskQueue[1:]
+			verifEvent("tgPop", int64(len(c.taskQueue)))
 			c.mu.Unlock()
 
 			c.muStats.Lock()
@@ -348,6 +351,7 @@ func (c *RetryClient) SetClient(ctx context.Context, cli *BaseClient) {
 			c.muStats.Unlock()
 
 			task(ctx, cli)
+			verifEvent("tgAfter", int64(len(c.retryQueue)))
 
 			if c.newRetryByError {
 				_ = cli.Close()
@@ -383,6 +387,7 @@ func (c *RetryClient) pushTask(ctx context.Context, task func(ctx context.Contex
 	}
 
 	c.taskQueue = append(c.taskQueue, task)
+	verifEvent("pushTask", int64(len(c.taskQueue)))
 	select {
 	case c.chTask <- struct{}{}:
 	default:
@@ -449,6 +454,7 @@ func (c *RetryClient) Retry(ctx context.Context) {
 			if retryErr, ok := err.(ErrorWithRetry); ok {
 				c.retryQueue = append(c.retryQueue, retryErr.Retry)
 				c.retryQueue = append(c.retryQueue, oldRetryQueue...)
+				verifEvent("retryRequeue", int64(len(c.retryQueue)))
 				break
 			}
 		}
